@@ -306,6 +306,28 @@ def run_case(case, stats):
             raise Violation(
                 "exec-changed-rows", f"tree {r2}: expected {show_rows(expected)} executed {show_rows(got_exec)}; {ctx}"
             )
+        # history: the same upstream relation object is extended a second time with a *different* operation of the same
+        # kind, then once more with the first one - whatever the first merge did to shared objects (cached lists on
+        # the upstream predicate, ...) must not show up in the later merges
+        if down[0] == "sel":
+            down2 = ("sel", ("not", down[1]))
+        elif down[0] == "sort":
+            down2 = ("sort", tuple((e, not asc) for e, asc in down[1]))
+        elif down[0] == "slice":
+            down2 = ("slice", down[1] + 1, None if down[2] is None else down[2] + 1)
+        else:
+            down2 = down
+        for again, spec in (("a second, different operation on the same upstream relation", down2), ("the first operation again on the same upstream relation", down)):
+            prog2 = with_src(spec, prog_up)
+            try:
+                r3 = apply_node(prog2, [r1], env)
+                got3 = env.run_iter(r3)
+            except Exception as e:
+                raise Violation("apply-raised", f"{again}: {type(e).__name__}: {e}; second={spec[0]}{_fmt_spec(spec)}; {ctx}", exc=e)
+            exp3 = ev_list(prog2, leaves)
+            if got3 != exp3:
+                raise Violation("exec-changed-rows", f"{again}: tree {r3}: expected {show_rows(exp3)} executed {show_rows(got3)}; {ctx}", history=True)
+        stats.c["second-merges"] += 1
         stats.c[f"tree_nodes:{nodes}"] += 1
         if nodes < (len(case[2][1]) + 1 if seq_mode else 2):
             stats.mark_nontrivial(codec.digest(case), lambda: describe(case), cls=f"{pair}/nodes={nodes}")
